@@ -29,6 +29,47 @@ import (
 type upl struct {
 	T string `json:"t"`
 	N int    `json:"n"` // 0: the init segment of a late track
+	A int    `json:"a"` // 0: the whole body; 1: the body breaks inside the first fragment; 2: inside a later fragment
+	F int    `json:"f"` // fragments (CMAF chunks) of the segment with this number on this track
+	K int    `json:"k"` // selects the point where an aborted body breaks
+}
+
+// normalize fixes, per (track, number), the number of fragments (every upload of the same number carries the same
+// segment: duplicates and retries are byte-identical in full) and the break points of aborted uploads.
+func normalize(h *history) {
+	frags := map[string]int{}
+	key := func(u upl) string { return fmt.Sprintf("%s/%d", u.T, u.N) }
+	hash := func(s string) int {
+		x := uint32(2166136261)
+		for i := 0; i < len(s); i++ {
+			x = (x ^ uint32(s[i])) * 16777619
+		}
+		return int(x >> 8)
+	}
+	for _, u := range h.Order {
+		if u.N == 0 {
+			continue
+		}
+		if u.F > frags[key(u)] {
+			frags[key(u)] = u.F
+		}
+		if u.A == 2 && frags[key(u)] < 2 {
+			frags[key(u)] = 2 + hash(h.ID+key(u))%2
+		}
+	}
+	for i := range h.Order {
+		u := &h.Order[i]
+		if u.N == 0 {
+			continue
+		}
+		if frags[key(*u)] == 0 {
+			frags[key(*u)] = []int{1, 1, 2, 3}[hash(h.ID+key(*u))%4]
+		}
+		u.F = frags[key(*u)]
+		if u.A != 0 && u.K == 0 {
+			u.K = 1 + hash(fmt.Sprintf("%s#%d", h.ID, i))%1000
+		}
+	}
 }
 
 // pred: what the explorer model says about the history (fidelity only, never a verdict)
@@ -78,6 +119,10 @@ func classify(h *history, window int) string {
 	for _, u := range h.Order {
 		if u.N == 0 {
 			feat["late"] = true
+			continue
+		}
+		if u.A != 0 {
+			feat["abort"] = true
 			continue
 		}
 		if seen[u.T] == nil {
@@ -146,6 +191,7 @@ func fromGen(g genLine, id string) history {
 		g.Mpd = []int{}
 	}
 	h.Pred = &pred{Panic: g.Panic, Mpd: g.Mpd, Latest: g.Latest, Started: g.Started, NrTracks: g.NrTracks, ListedBad: g.ListedBad}
+	normalize(&h)
 	h.Class = classify(&h, g.W)
 	return h
 }
@@ -352,6 +398,12 @@ func orderStr(o []upl) string {
 			fmt.Fprintf(&sb, "%s:init", u.T)
 		} else {
 			fmt.Fprintf(&sb, "%s:%d", u.T, u.N)
+			if u.F > 1 {
+				fmt.Fprintf(&sb, "/%d", u.F)
+			}
+			if u.A != 0 {
+				sb.WriteString([]string{"", "!early", "!late"}[u.A])
+			}
 		}
 	}
 	return sb.String()
